@@ -25,7 +25,7 @@ TECHNIQUE = 'symbolic execution of the real PIT cost path on z3-real masks; per 
 FUNCTIONS_ENCODED = ['PIT.get_cost/_get_single_cost/_single_cost_fn_map/cost_specification setter', 'PITConv1d/PITConv2d/PITLinear.get_modified_vars/out_features_eff/k_eff',
                      'ModAttr/Flatten/Concat/ConstFeaturesCalculator.features', 'plinio.cost.params/params_no_bias/ops/ops_no_bias/gap8_latency (registered functions)',
                      'shapes_dict', 'named_leaf_modules/uniquify_leaf_modules', 'PIT.export (for the from-scratch oracle)']
-BOUNDS = {'quick': 'programs T1(K=3,4), T2, A1, K1(s+f), D2 (+gap8), L1, R2, R4; specs as one dictionary {params, params_no_bias, ops, ops_no_bias} and params alone; full_cost on/off; cost specification re-assigned after pruning',
+BOUNDS = {'quick': 'programs T1(K=3,4), T2, A1, K1(s+f, f+f), K3 (nested concat), H1 (multi-resolution flatten+concat head), D2 (+gap8), L1, R2, R4; specs as one dictionary {params, params_no_bias, ops, ops_no_bias} and params alone; full_cost on/off; cost specification re-assigned after pruning',
           'thorough': 'T1 K=1..9, all C01 whole-net programs incl. fold_bn, every metric also as a single specification'}
 OUTSIDE = ['float32 rounding of cost sums (exact arithmetic)', 'layers pruned to exactly 1 input and 1 output channel with groups=1: they satisfy conv_dw_constraint, so a from-scratch evaluation picks the depthwise model while the search used the generic one (GAP8: 54 vs 81 on D2 with a 1-channel input); the grammar uses 2 input channels for 2D programs', 'architectures outside the grammar', 'user-defined cost specifications']
 ASSUMPTIONS = ['the from-scratch oracle for latency-like metrics is PIT(exported, same spec).get_cost at initialisation (the statement\'s own definition); params and ops additionally use independent numel / forward-hook counts']
@@ -45,7 +45,8 @@ def _specs(fam):
 
 def instances(tier, seed):
     progs = [{'fam': 'T1', 'K': 3, 'C': 2}, {'fam': 'T1', 'K': 4, 'C': 2}, {'fam': 'T2', 'K0': 3, 'K1': 2}, {'fam': 'A1', 'K': 2, 'C': 2},
-             {'fam': 'K1', 'origins': ['s', 'f']}, {'fam': 'D2', 'C': 2, 'cin': 2}, {'fam': 'L1'}, {'fam': 'R2'}, {'fam': 'R4'}]
+             {'fam': 'K1', 'origins': ['s', 'f']}, {'fam': 'D2', 'C': 2, 'cin': 2}, {'fam': 'L1'}, {'fam': 'R2'}, {'fam': 'R4'},
+             {'fam': 'K1', 'origins': ['f', 'f']}, {'fam': 'K3', 'origins': ['f', 'f']}, {'fam': 'H1'}]
     if tier == 'thorough':
         progs += [{'fam': 'T1', 'K': K, 'C': 2} for K in (1, 2, 5, 6, 7, 8, 9)] + [{'fam': 'T1', 'K': 4, 'd0': 2, 'C': 2}, {'fam': 'T1', 'K': 3, 's': 2, 'C': 2}]
         progs += [{'fam': 'A1', 'K': 2, 'C': 2, 'dw': True}, {'fam': 'K1', 'origins': ['s', 's']}, {'fam': 'K1', 'origins': ['f', 'i']}, {'fam': 'K1', 'origins': ['s', 'f', 's']},
@@ -72,7 +73,7 @@ def _cost_arg(fam, mode):
 
 
 def _excluded(spec, model):
-    return tuple(model.fixed_names()) if spec['fam'] == 'K1' else ()
+    return tuple(model.fixed_names()) if spec['fam'] in ('K1', 'K3') else ()
 
 
 def scratch_costs(spec, exported_real, shape, mode, full, model):
